@@ -96,6 +96,14 @@ pub fn subsets(items: &[String], max_all: usize) -> Vec<BTreeSet<String>> {
             out.push(items.iter().enumerate().filter(|(j, _)| *j != i).map(|(_, x)| x.clone()).collect());
         }
         out.push(items.iter().cloned().collect());
+        // every contiguous window (in label order) of every size: the first k, the last k, ...
+        for size in 2..n - 1 {
+            for start in 0..=(n - size) {
+                out.push(items[start..start + size].iter().cloned().collect());
+            }
+        }
+        out.sort();
+        out.dedup();
     }
     out
 }
